@@ -530,7 +530,7 @@ func init() {
 					}
 					return false
 				case "RW.TMPL.CONSUMER":
-					return strings.Contains(o.Construct, "nested in its own block")
+					return strings.Contains(o.Construct, "nested in its own block") || strings.Contains(o.Construct, "no loop variable")
 				case "RW.TMPL.ITERTYPE": // leaving other index expressions alone is C13's
 					return !strings.Contains(o.Construct, "= false")
 				case "RW.ORACLE":
